@@ -3,8 +3,6 @@
 # 1. confirm the seeded change in a scratch worktree: builds, touched packages' previously-passing tests still pass,
 #    demonstration passes without and fails with the change;  2. apply it to /repo, run the checks, undo.
 set -u
-# /repo is shared by integration (cherry-picks) and seeded runs (apply/undo): serialise them
-exec 9>/tmp/repo.lock; flock 9
 ID=$1; SRC=$2; shift 2; DEMO="$(cat $SRC/demo.cmd)"; GT="-tags leveldb -ldflags=-checklinkname=0"
 export GOFLAGS=-mod=mod GOPROXY=off GOSUMDB=off GOTOOLCHAIN=local
 W=/tmp/sv-$ID
@@ -33,6 +31,8 @@ cd /verif; git -C /repo worktree remove --force $W; rm -f /tmp/sv-$ID.base.*
 echo "confirm: demo_without=$D0 build=$B1 tests=$T1 demo_with=$D1" | tee -a $LOG
 [ "$D0$B1$T1$D1" = "okokokok" ] || { echo "NOT CONFIRMED"; exit 3; }
 # 2. run the checks against /repo with the change applied, then undo
+# /repo is shared by integration (cherry-picks) and seeded runs (apply/undo): serialise them (phase 1 only uses its own worktree)
+exec 9>/tmp/repo.lock; flock 9
 git -C /repo status --short | grep -q . && { echo "/repo not clean"; exit 2; }
 git -C /repo apply $SRC/patch.diff
 RES=""
@@ -40,4 +40,4 @@ for p in "$@"; do ./check $p --tier quick > $OUT/check-$p.out 2>&1; rc=$?; tail 
 git -C /repo checkout -- . ; git -C /repo status --short
 echo "checks:$RES" | tee -a $LOG
 # evidence files must describe the unchanged tree: re-run the same checks now that the change is undone
-for p in "$@"; do ./check $p --tier quick | tail -1; done
+[ -n "${SKIP_RERUN:-}" ] || for p in "$@"; do ./check $p --tier quick | tail -1; done
